@@ -72,7 +72,7 @@ Print Assumptions nlist_sym_irrefl_nodup.
 Theorem nlist_sound : forall cell c xyz i j,
   In j (nth i (nlist_half cell c xyz) []) ->
   (j < i)%nat /\ (i < length xyz)%nat /\ image_within cell c (pos xyz i) (pos xyz j).
-Proof. exact nlist_half_sound. Qed.
+Proof. exact (nlist_half_sound false). Qed.
 Print Assumptions nlist_sound.
 
 (* no cell: every pair closer than the cutoff is listed (both directions) *)
@@ -135,7 +135,7 @@ Print Assumptions nlist_fixed_sound.
    diagonal entry => every pair closer than the cutoff is listed" is FALSE of the code, as found and repaired alike
    (found by the thorough correspondence run, reproduced on md.compute_neighborlist): in a flat skewed cell with only
    three voxels along z a direct neighbour two voxels away is reached only as its periodic image, whose y window is
-   shifted by c_y.  Known defect (KNOWN_FINDINGS C10-neighborlist-triclinic-three-voxels).  What IS proved for
+   shifted by c_y.  Known defect (KNOWN_FINDINGS C10-neighborlist-triclinic-three-voxels); see the second repair below.  What IS proved for
    triclinic cells: nlist_sound, nlist_sym_irrefl_nodup; completeness for triclinic cells with more voxels is
    exercised by the correspondence run and the oracle only (PARTIAL). *)
 Theorem nlist_complete_triclinic_incell_refuted :
@@ -147,6 +147,47 @@ Theorem nlist_complete_triclinic_incell_refuted :
     ~ In j (nth i (nlist_cur (Some B) c xyz) []) /\ ~ In j (nth i (nlist_fix (Some B) c xyz) []).
 Proof. exact nlist_triclinic_incell_counterexample. Qed.
 Print Assumptions nlist_complete_triclinic_incell_refuted.
+
+(* SECOND REPAIR (on top of the first): in a triclinic cell with fewer than 5 voxels along z scan every y voxel
+   (fixes/C10-neighborlist-triclinic-few-voxels.diff).  Proved: still symmetric/irreflexive/duplicate-free, sound for
+   every cell, complete without a cell and for orthorhombic cells wherever the atoms sit, and it lists the
+   refutation witness above.  PARTIAL: completeness for triclinic cells (atoms anywhere, cutoff <= half of every
+   diagonal entry) is NOT proved -- the four-corner x-range logic of the triclinic branch is modelled
+   (Model.vox_range) but only exercised by the correspondence run and the exact oracle (no miss on any triclinic
+   frame once this repair is applied). *)
+Theorem nlist_fixed2_sym_irrefl_nodup : forall cell c xyz i j,
+  let N := nlist_fix2 cell c xyz in
+  (In j (nth i N []) -> In i (nth j N [])) /\ ~ In i (nth i N []) /\ NoDup (nth i N []) /\
+  (In j (nth i N []) -> (i < length xyz)%nat /\ (j < length xyz)%nat).
+Proof. exact nlist_fix2_relation. Qed.
+Print Assumptions nlist_fixed2_sym_irrefl_nodup.
+
+Theorem nlist_fixed2_sound : forall cell c xyz i j,
+  In j (nth i (nlist_half_fix_gen true cell c xyz) []) ->
+  (j < i)%nat /\ (i < length xyz)%nat /\ image_within cell c (pos xyz i) (pos xyz j).
+Proof. exact (nlist_half_fix_gen_sound true). Qed.
+Print Assumptions nlist_fixed2_sound.
+
+Theorem nlist_fixed2_complete_ortho : forall B c xyz i j k1 k2 k3,
+  box_ok B -> ortho B -> 0 < c ->
+  2 * c <= b_ax B /\ 2 * c <= b_by B /\ 2 * c <= b_cz B ->
+  (i < length xyz)%nat -> (j < length xyz)%nat -> i <> j ->
+  norm2 (vsub (vsub (pos xyz j) (pos xyz i)) (lat B k1 k2 k3)) < c * c ->
+  In j (nth i (nlist_fix2 (Some B) c xyz) []).
+Proof. exact nlist_fix2_complete_ortho. Qed.
+Print Assumptions nlist_fixed2_complete_ortho.
+
+Theorem nlist_fixed2_complete_nopbc : forall c xyz i j,
+  0 < c -> (i < length xyz)%nat -> (j < length xyz)%nat -> i <> j ->
+  norm2 (vsub (pos xyz j) (pos xyz i)) < c * c ->
+  In j (nth i (nlist_fix2 None c xyz) []).
+Proof. exact nlist_fix2_complete_nocell. Qed.
+Print Assumptions nlist_fixed2_complete_nopbc.
+
+Theorem nlist_fixed2_on_triclinic_witness :
+  In 0%nat (nth 1 (nlist_fix2 (Some tric_box) 676 tric_xyz) []) /\ In 1%nat (nth 0 (nlist_fix2 (Some tric_box) 676 tric_xyz) []).
+Proof. exact nlist_fix2_on_triclinic_witness. Qed.
+Print Assumptions nlist_fixed2_on_triclinic_witness.
 
 (* non-vacuity of the hypothesis sets *)
 Example ortho_incell_hypotheses_satisfiable :
